@@ -23,7 +23,8 @@
 // Dense::backward (l.161-167) computes delta = f'(pre) * upstream without the mask; the same holds for
 // Convolution / Deconvolution forward vs backward.
 //
-// Run: cargo test --offline --features verif --test C01_1 -- --nocapture
+// Run: copy to tests/C01_1.rs, then
+//      cargo test --offline --features verif --test C01_1 -- --nocapture
 
 use neurons::verif::{self, LayerParams};
 use neurons::{activation, network, objective, optimizer, tensor};
